@@ -101,6 +101,19 @@ def _check(case):
                 "permeance of %s at %r K = %r, Arrhenius law of the nearest experiment gives %r (Ea %r, experiments %r)",
                 comp.name, t, float(got.value), ref, ea, exps)
         vals.append(float(got.value))
+        # the same whole-kelvin temperature stated as float, Python int and numpy integer; then the first question again (one
+        # Membrane object answers any number of questions in any order)
+        import numpy
+
+        ti = int(round(t))
+        typed = [call(mem.get_permeance, form, comp) for form in (float(ti), ti, numpy.int64(ti))]
+        if not is_raised(typed[0]):
+            for label, other in (("int", typed[1]), ("numpy.int64", typed[2])):
+                require(not is_raised(other) and relerr(other.value, typed[0].value) <= 1e-12 and other.units == typed[0].units,
+                        "permeance of %s at %r K given as %s = %r, given as float %r", comp.name, ti, label, other, typed[0])
+        again = call(mem.get_permeance, t, comp)
+        require(not is_raised(again) and again.value == got.value and again.units == got.units,
+                "get_permeance(%r) asked a second time on the same membrane gives %r, the first time %r", t, again, got)
         stated = [e["Ea"] for e in exps]
         if len(exps) >= 2:
             # regression (used when none is stated)
